@@ -953,6 +953,22 @@ def _owning_expr(module, v, target):
     return False
 
 
+def _sound_private_flag(fn, name):
+    """The local `name` is (the negation of) np.may_share_memory /
+    np.shares_memory, possibly computed by a local helper."""
+    from .rules_more4 import _derivations
+    if not name.isidentifier():
+        return False
+    for e in _derivations(fn, ast.Name(id=name, ctx=ast.Load())):
+        for x in ast.walk(e):
+            if isinstance(x, ast.UnaryOp) and isinstance(x.op, ast.Not) and \
+                    isinstance(x.operand, ast.Call) and \
+                    (call_name(x.operand) or "").split(".")[-1] in (
+                        "may_share_memory", "shares_memory"):
+                return True
+    return False
+
+
 def inplace_ownership(repo, col):
     rule = "E-OWN"
     from .core import returned_closure
@@ -983,9 +999,24 @@ def inplace_ownership(repo, col):
             return owned.get(nm, False) or \
                 ("%s.flags.writeable" % nm, "truthy") in conds or \
                 ("%s.flags.writeable" % root.get(nm, nm), "truthy") in conds
+        disj = []       # alternatives one of which holds: [(text, op), ...]
         for ev in path:
             if ev[0] == "cond":
                 conds += [(norm(a.left), a.op) for a in holds(ev[1], ev[2])]
+                # not (A and B) on this path: not A or not B
+                parts = [ev[1]]
+                if isinstance(ev[1], ast.BoolOp) and \
+                        isinstance(ev[1].op, ast.Or) and not ev[2]:
+                    parts = list(ev[1].values)
+                for pt in parts:
+                    if isinstance(pt, ast.BoolOp) and \
+                            isinstance(pt.op, ast.And) and not ev[2]:
+                        alts = []
+                        for v_ in pt.values:
+                            alts += [(norm(a.left), a.op)
+                                     for a in holds(v_, False)]
+                        if len(alts) == len(pt.values):
+                            disj.append(alts)
                 continue
             if ev[0] != "stmt":
                 continue
@@ -1005,6 +1036,17 @@ def inplace_ownership(repo, col):
                             "(decoded chunks, memory maps)" % nm, node=c,
                             path=["%s %s" % c_ for c_ in conds])
                     may_preserve = (preserve, "falsy") not in conds
+                    if may_preserve:
+                        # `not preserve_input or private`, where `private` is
+                        # computed with np.may_share_memory / shares_memory:
+                        # a sound run-time test that the array is not the
+                        # caller's
+                        for alts in disj:
+                            if all(a_ == (preserve, "falsy") or (
+                                    a_[1] == "truthy" and
+                                    _sound_private_flag(fn, a_[0]))
+                                   for a_ in alts):
+                                may_preserve = False
                     okp = owned.get(nm, False) or not may_preserve
                     col.add(rule + ".preserve", fn, norm(c)[:60], okp,
                             "" if okp else "in-place write into the caller's "
